@@ -26,6 +26,25 @@ struct Array<T, 0>
     constexpr explicit Array(const std::array<T, 0>&) noexcept {}
 };
 
+template <class T, std::size_t N>
+constexpr bool operator==(const detail::Array<T, N>& lhs, const detail::Array<T, N>& rhs) noexcept
+{
+    for (std::size_t i{}; i != N; ++i)
+    {
+        if (lhs.array_[i] != rhs.array_[i])
+        {
+            return false;
+        }
+    }
+    return true;
+}
+
+template <class T>
+constexpr bool operator==(const detail::Array<T, 0>&, const detail::Array<T, 0>&) noexcept
+{
+    return true;
+}
+
 template <std::size_t I, class T, std::size_t N>
 constexpr decltype(auto) get(const detail::Array<T, N>& array) noexcept
 {
